@@ -7,7 +7,14 @@
       integer outputs and write footprints are compared inside Coq with the models;
   (3) API level (the search): every public entry point that reaches a kernel, under the
       sanitizer-built extension modules with an exact-size numpy allocator, at and beyond
-      the boundary shapes, value classes and option ranges of the property.
+      the boundary shapes, value classes and option ranges of the property; catchment
+      topologies (holes, enclosed inlets, one cell wide, whole grid) x filled x inlets x nval
+      x second grids coarser / equal / finer / shifted / partly covering, derived catchments
+      (dictionary, clone, a + b, a - b); argument layouts the wrappers derive buffer sizes
+      from (dimensions, views, orders, dtypes, disagreeing lengths); extreme legal sizes;
+  (4) the buffers the Python call sites allocate for the kernels are re-extracted
+      (harness/extractors/c05.py, PY_KERNEL_CALLS) and stated in Props/C05.v: the lengths the
+      theorems assume and the wrappers do not assert rest on those expressions.
 A sanitizer report or an abnormal end of the child is a failing input."""
 import json
 import time
@@ -57,8 +64,14 @@ def run(ctx):
                 "(lengths 0,1,2,3,.. and random larger, grids 0x0..NxN, NaN/inf/huge/negative values, options at and "
                 "beyond their ranges), every buffer at its exact malloc size under ASan+UBSan (-O0); API level: "
                 "enumeration of boundary shapes x value classes x options for every public entry point reaching a "
-                "kernel, under sanitizer-built extensions with an exact-size numpy allocator; non-trivial = distinct "
-                "(kernel/function, size class, option class, outcome) signature")
+                "kernel, under sanitizer-built extensions with an exact-size numpy allocator, + catchment topologies "
+                "(with / without holes, enclosed inlets, one cell wide, whole grid, random) x filled x inlets x nval around "
+                "the number of cells x second grids (coarser / equal / finer, shifted, covering / partial / one cell / "
+                "one row / disjoint / empty) x derived catchments (dictionary round trip, clone, a + b, a - b, area and "
+                "filled area given independently) + argument layouts (dimensions, views, Fortran order, dtypes, lengths "
+                "that disagree, time zones / units of var2h) + extreme legal sizes (2*10^5 members / values, 120^2-cell "
+                "catchments, 1500^2-cell second grid); non-trivial = distinct (kernel/function, size class, option "
+                "class, outcome) signature")
     ctx.trusted = cm.STD_TRUST + [
         "clang 14 -O0 -fsanitize=address,undefined builds of the kernels and of the pre-generated wrapper C; "
         "AddressSanitizer/UBSan verdicts; ctypes; the exact-size numpy allocator (harness/props/c05_native.py)",
@@ -92,7 +105,9 @@ def run(ctx):
             items.append(gen(rng, big))
     kenv = nat.san_env([cm.VERIF])
     kenv["HYK_LIB"] = str(klib)
+    t0 = time.time()
     kres, kextra = run_parallel(HERE / "c05_kworker.py", [it[1] for it in items], kenv, "k", cm.NCPU)
+    ctx.notes["kernel_level_s"] = round(time.time() - t0, 1)
     terms, replays, tidx = [], [], {}
     nk_crash = 0
     for i, ((sig, case, build), r) in enumerate(zip(items, kres)):
@@ -139,7 +154,9 @@ def run(ctx):
     if ctx.replay and isinstance(ctx.replay.get("replay"), dict) and "code" in ctx.replay["replay"]:
         acases.insert(0, (ctx.replay["replay"].get("fn", "replay"), ctx.replay["replay"]["code"], "replay-arg"))
     aenv = nat.san_env([ext, cm.REPO / "src", cm.VERIF])
+    t0 = time.time()
     ares, aextra = run_parallel(HERE / "c05_aworker.py", [{"code": c[1]} for c in acases], aenv, "a", cm.NCPU)
+    ctx.notes["api_level_s"] = round(time.time() - t0, 1)
     na_crash, outcomes = 0, {}
     for (fn, code, origin), r in zip(acases, ares):
         if r["status"] == "skipped":
